@@ -774,7 +774,7 @@ func C18() *sim.Check {
 
 	ck := &sim.Check{
 		Prop: "C18", Harness: "h_isolate+h_conc", Level: "exploration",
-		Rule:        "concurrent / concurrent-cold: 2-6 caller goroutines become simulator tasks, each with 1-4 operations on objects it owns (hostile programs in own interpreters, ReadCMap, type1.Read, Font.Write, Metrics.Write+afm.Read, glyph-name look-ups, fresh interpreters, CIDInit users/abusers, font queries); tools/instrument puts a yield point at every function and loop entry of the library (~340 sites) and routes Lock/RLock/Once/go through the scheduler; only the task chosen by the tape runs, every context switch happens at a yield point, the hand-off uses plain norace variables so that the Go race detector sees only the library's own synchronisation. Oracles: no race report (halt_on_error, attributed to the run in progress), every operation's result digest equals that of the same operation run alone in a separate reference process, all tasks finish within the step budget. concurrent-cold uses one simulation per process so that first-use initialisation races with use. isolation: probe0 ; (polluter ; probe)* histories per process with a fixed probe battery on fresh objects after every polluter. distinct_nontrivial counts distinct interleaving fingerprints (hash of the (from-task, to-task, site) switch sequence) with >= 2 tasks and >= 1 context switch, plus distinct (history, step) isolation probes.",
+		Rule:        "concurrent / concurrent-cold: 2-6 caller goroutines become simulator tasks, each with 1-4 operations on objects it owns (hostile programs in own interpreters, ReadCMap, type1.Read, Font.Write, Metrics.Write+afm.Read, glyph-name look-ups, fresh interpreters, CIDInit users/abusers, font queries); tools/instrument puts a yield point at every function and loop entry of the library (~340 sites) and routes Lock/RLock/Once/go through the scheduler; only the task chosen by the tape runs, every context switch happens at a yield point, the hand-off uses plain norace variables so that the Go race detector sees only the library's own synchronisation. Oracles: no race report (halt_on_error, attributed to the run in progress), every operation's result digest equals that of the same operation run alone in a separate reference process, all tasks finish within the step budget. concurrent-cold uses one simulation per process so that first-use initialisation races with use. isolation: probe0 ; (polluter ; probe)* histories per process with a fixed probe battery on fresh objects after every polluter. distinct_nontrivial counts distinct interleaving fingerprints (hash of the (from-task, to-task, site) switch sequence) with >= 2 tasks and >= 1 context switch, plus distinct (history, step) isolation probes. In one simulation in three all callers run the same operations (rebuilt from the same draws, or - half of the time - sharing the very same input values), half of those starting with a hostile program: first-use initialisation is then needed by all at once. Goroutines the library starts become tasks; channel operations, select and sync.Cond.Wait that cannot complete at once are carried out parked (the task hands the turn on, blocks in the real operation, queues for the turn when it returns); time.AfterFunc either fires at once (callback = task) or not within the run, by a draw; time.Sleep passes simulated time only. None of these sites exists on the tree as pinned (the instrumenter reports the site list on every run).",
 		Assume:      []string{"TSan keeps four accesses per shadow word and may miss a race; it never invents one", "the reference process runs polluters too; if isolation were broken there, results would still differ and be reported", "workers run with GOMAXPROCS=1: the interleaving is decided by the tape, not by the Go scheduler"},
 		RealStub:    map[string]any{"real": []string{"all go-postscript packages, seam-instrumented copy of the current working tree, built with -race", "sync.Mutex (via TryLock), text/template, embed"}, "stub": []string{"the goroutine scheduler (seeded cooperative scheduler in simrt)", "caller goroutines (generated tasks)"}},
 		Batches:     []*sim.Batch{iso, conc("concurrent-cold", 160, 5_000, 1), conc("concurrent", 5000, 150_000, 50)},
